@@ -37,6 +37,8 @@ class C11(EngineProp):
             out.append({'mode': 'tcp', 'role': rng.choice(['client', 'server']), 'profile': 'tcp-cut', 'cut': rng.choice(['eof', 'reset', 'timeout', 'close']),
                         # the application's close notification asks once more (a last request / a retry): the endpoint is going away, it must be failed
                         'ask_in_on_close': rng.random() < 0.4,
+                        # ... or fails (a flush of application state that hits a full disk, say)
+                        'on_close_raises': rng.choice([None, None, None, 'OSError', 'RuntimeError', 'ValueError']),
                         'partial': rng.randint(0, 40), 'rr': rng.randint(0, 2), 'streams': rng.randint(0, 2), 'incoming': rng.randint(0, 2),
                         'producers': rng.choice([0, 1, 1, 2]), 'producer_kind': rng.choice(['gen', 'agen']), 'producer_when': rng.choice(['early', 'same-read']),
                         'late_rr': rng.choice([0, 0, 1, 2]), 'late_streams': rng.choice([0, 0, 1])})
@@ -81,6 +83,8 @@ class C11(EngineProp):
                 log['pulls_at_close'] = len(log['pulls'])
                 if case.get('ask_in_on_close'):
                     log['asked'].append(rsocket.request_response(Payload(b'last')))
+                if case.get('on_close_raises'):
+                    raise {'OSError': OSError(28, 'No space left on device'), 'RuntimeError': RuntimeError('on_close failed'), 'ValueError': ValueError('on_close failed')}[case['on_close_raises']]
         if case['role'] == 'client':
             ep = RSocketClient(single_transport_provider(t), handler_factory=H, keep_alive_period=timedelta(seconds=100000), max_lifetime_period=timedelta(seconds=1000000))
             await ep.connect()
@@ -126,7 +130,10 @@ class C11(EngineProp):
                 await loop.settle()
         if case['cut'] == 'close':
             # the application closes a live connection itself
-            await ep.close()
+            try:
+                await ep.close()
+            except Exception as e:
+                log['close_raised'] = type(e).__name__
             await loop.settle()
             log['asked_after_close'] = ['pending' if not f.done() else ('cancelled' if f.cancelled() else ('error:' + type(f.exception()).__name__ if f.exception() else 'result')) for f in log['asked']]
         elif case['cut'] == 'eof':
@@ -167,6 +174,8 @@ class C11(EngineProp):
         res['late_subs'] = [s.events for s in late_subs]
         res['table_after_close'] = sorted(ep._stream_control._streams.keys())
         res['asked_after_explicit_close'] = log.get('asked_after_close')
+        res['close_raised'] = log.get('close_raised')
+        res['transport_closed'] = bool(getattr(t._writer, 'closed', None)) if hasattr(t, '_writer') else None
         res['asked_in_on_close'] = ['pending' if not f.done() else ('cancelled' if f.cancelled() else ('error:' + type(f.exception()).__name__ if f.exception() else 'result')) for f in log['asked']]
         res['pulled_after_close'] = (len(log['pulls']) - log['pulls_at_close']) if log['pulls_at_close'] is not None else 0
         res['source_tasks_alive'] = sorted({getattr(tk.get_coro(), '__qualname__', '?') for tk in asyncio.all_tasks()
@@ -224,6 +233,8 @@ class C11(EngineProp):
         for i, f in enumerate(obs.get('late_futures', [])):
             if not f.startswith('error'):
                 fails.append({'signature': 'request-pending-at-close-not-failed:' + case['role'], 'what': 'TransportTCP, %s: request-response %d issued after the loss and before close() is %s after close()' % (how, i, f)})
+        if obs.get('close_raised'):
+            fails.append({'signature': 'close-raises-the-applications-on_close-exception', 'what': 'TransportTCP, %s: close() raised %s, the exception of the application\'s on_close handler: the rest of the shutdown was skipped' % (how, obs['close_raised'])})
         for i, f in enumerate(obs.get('asked_after_explicit_close') or obs.get('asked_in_on_close', [])):
             if not f.startswith('error'):
                 fails.append({'signature': 'request-issued-in-on_close-not-failed:' + case['role'], 'what': 'TransportTCP, %s: a request-response issued by the application inside on_close is %s after close() returned' % (how, f)})
